@@ -223,6 +223,10 @@ def run_case(desc):
             def worse_than(self, first_fitness, second_fitness):
                 return abs(first_fitness - 0.25) > abs(second_fitness - 0.25)
 
+            def equivalent(self, first_fitness, second_fitness):
+                # the other half of its notion of comparison: values equally far from the target are equivalent
+                return abs(first_fitness - 0.25) == abs(second_fitness - 0.25)
+
             @property
             def bounds(self):
                 return bounds
@@ -268,7 +272,7 @@ def run_case(desc):
         viol("direction of the stack is not that of the innermost problem", stack=shape, maximize=maximize, got=bool(top.maximize))
     if not custom_inner and get_function_problem(top) is not fp:
         viol("get_function_problem does not return the innermost problem", stack=shape)
-    pairs = [(1.0, 2.0), (2.0, 1.0), (1.0, 1.0), (math.inf, 1.0), (1.0, -math.inf), (-math.inf, math.inf), (0.0, -0.0), (math.nan, 1.0), (1.0, math.nan), (-3.0, 0.3), (0.3, -3.0)]
+    pairs = [(-0.75, 1.25), (1.0, 2.0), (2.0, 1.0), (1.0, 1.0), (math.inf, 1.0), (1.0, -math.inf), (-math.inf, math.inf), (0.0, -0.0), (math.nan, 1.0), (1.0, math.nan), (-3.0, 0.3), (0.3, -3.0)]
     for a, b in pairs:
         got = top.worse_than(a, b)
         cov["worse_than_pairs"] += 1
@@ -281,6 +285,12 @@ def run_case(desc):
             nan = " (NaN operand)" if (a != a or b != b) else ""
             cust = " (user-defined innermost problem)" if custom_inner else ""
             viol(f"fitness comparison of the stack differs from the innermost problem's{nan}{cust}", stack=shape, a=a, b=b, got=bool(got), innermost=bool(inner), maximize=maximize)
+        if hasattr(fp, "equivalent") and not (a != a or b != b):
+            cov["equivalent_pairs"] += 1
+            ge, ie = bool(top.equivalent(a, b)), bool(fp.equivalent(a, b))
+            if ge != ie:
+                cust = " (user-defined innermost problem)" if custom_inner else ""
+                viol(f"equivalence of fitness values answered by the stack differs from the innermost problem's{cust}", stack=shape, a=a, b=b, got=ge, innermost=ie)
 
     def build_outer(w, inner):
         k = w["k"]
